@@ -87,6 +87,5 @@ func TestVerifC17Race(t *testing.T) {
 	defer r.End(t)
 	n := raceN(r)
 	r.Rule = fmt.Sprintf(raceRule, n)
-	cases := []c17SchedCase{{"start", "start"}, {"reinit", "reinit"}}
-	raceCases(t, r, cases, func(c c17SchedCase) string { return c.Name }, c17SchedScenario, n)
+	raceCases(t, r, c17SchedCases, func(c c17SchedCase) string { return c.Name }, c17SchedScenario, n)
 }
